@@ -10,9 +10,7 @@
 (*    StReset, StWrite(st, chunk), StSum(st).  `total' is a 64-bit counter *)
 (*    and the lanes are used iff total >= 16 (the reference's large_len).  *)
 (*                                                                         *)
-(* The state machine at the bottom (variables st, hist) is what MC_XXH32   *)
-(* explores; XXH32_Trace reuses the same operators on recorded executions  *)
-(* of the implementation.                                                  *)
+(* The state machine over these operators is module XXH32Machine.          *)
 (***************************************************************************)
 EXTENDS Bits32
 
@@ -90,38 +88,4 @@ SumOf(v, total, buf) ==
     IN  Avalanche(TailMix(Add32(h0, Low32Of64(total)), buf, 1))
 
 StSum(st) == SumOf(st.v, st.total, st.buf)
-
-\* ---------------------------------------------------------------------------
-\* State machine: a hash object receiving a sequence of writes.
-CONSTANTS WriteLens     \* function: step number (1..MaxWrites) -> set of allowed lengths
-          , MaxWrites
-
-VARIABLES st, hist, nw
-
-vars == <<st, hist, nw>>
-
-\* deterministic byte stream fed to the hash: position p (1-based) -> byte
-Pat(p) == (p * 151 + 43 + (p \div 7) * 13) % 256
-
-Init == st = StReset /\ hist = <<>> /\ nw = 0
-
-\* one Write call on the hash object with the given bytes
-WriteChunk(chunk) ==
-    /\ st' = StWrite(st, chunk)
-    /\ hist' = hist \o chunk
-    /\ nw' = nw + 1
-
-Write(n) == WriteChunk([i \in 1 .. n |-> Pat(Len(hist) + i)])
-
-Reset == st' = StReset /\ hist' = <<>> /\ nw' = 0
-
-Next == nw < MaxWrites /\ \E n \in WriteLens[nw + 1] : Write(n)
-
-Spec == Init /\ [][Next]_vars
-
-\* C13 at design level: the streaming digest equals the one-shot function of
-\* everything written so far, after every write.
-StreamingRefinesOneShot == StSum(st) = XXH32(hist)
-
-BufInvariant == Len(st.buf) < 16 /\ Len(st.buf) = Len(hist) % 16
 =============================================================================
